@@ -8,15 +8,15 @@ PIPE_NOTE = ("Trusted base: the harness itself (fake protocol-level connector pl
              "of documented plugin semantics (internal/pipe/model.go). Says nothing about executions the workload did not produce.")
 checks = {
  "C01": dict(cat="exploration", ref="4/C01", tech="runtime monitoring: offline ordering oracle over a recorded boundary event log + Go race detector",
-   text="Runs the real engines (default and arch-v2) between scripted plugins and judges every source ack the plugins observe: it must be preceded in the log by a positive confirmation of every expected piece at every destination, or by a positive DLQ confirmation, or the record is filtered per script. Held = held on the executions produced (count and classes in the evidence).", note=PIPE_NOTE),
+   text="Runs the real engines (default and arch-v2) between scripted plugins and judges every source ack the plugins observe: it must be preceded in the log by a positive confirmation of every expected piece at every destination, or by a positive DLQ confirmation, or the record is filtered per script; the stored position (the durable form of the ack) is judged the same way, including a DLQ write confirmed only in part. Held = held on the executions produced (count and classes in the evidence).", note=PIPE_NOTE),
  "C02": dict(cat="exploration", ref="4/C02", tech="runtime monitoring: store-commit snapshot monitor + ordering oracle, store fault injection, Go race detector",
    text="Every source ack must be covered by an earlier successful commit whose snapshot holds that position or a later one; snapshots never move a position backwards or to empty; every commit covers only handled records. Store faults (failed transactional Set/Commit on connector keys) and commit delays are injected by the store wrapper.", note=PIPE_NOTE),
  "C04": dict(cat="exploration", ref="4/C04", tech="runtime monitoring: per-session sequence oracle over the recorded event log + Go race detector",
-   text="Per source plugin session, the flattened ack sequence must be a prefix of the emit sequence; workloads permute destination/worker/DLQ completion order through scripted latency classes.", note=PIPE_NOTE),
+   text="Per source plugin session, the flattened ack sequence must be a prefix of the emit sequence and the stored position must not skip a record without outcome; workloads permute destination/worker/DLQ completion order through scripted latency classes.", note=PIPE_NOTE),
  "C05": dict(cat="exploration", ref="4/C05", tech="runtime monitoring: per-destination order/duplicate/absence oracle over the recorded event log + reference model + Go race detector",
    text="Per destination session and source: writes in read order (pieces in piece order), nothing twice, nothing the scripts filter or reject upstream of that destination.", note=PIPE_NOTE),
  "C06": dict(cat="exploration", ref="4/C06", tech="runtime monitoring: state-at-return assertion over the recorded event log and store snapshots + Go race detector",
-   text="On healthy pipelines, at every StopAndWait that returns nil: written records have outcomes and source acks before source teardown, stored position == last ack, plugins torn down as often as opened, no plugin activity after the return. 'Always completes' only as bounded progress (watchdog twice, second time alone = wedge).", note=PIPE_NOTE),
+   text="On healthy pipelines (incl. a first stop request abandoned by its caller's deadline before the judged one), at every StopAndWait that returns nil: written records have outcomes and source acks before source teardown, stored position == last ack, plugins torn down as often as opened, no plugin activity after the return. 'Always completes' only as bounded progress (watchdog twice, second time alone = wedge).", note=PIPE_NOTE),
 }
 
 SVC_NOTE = ("Trusted base: the harness (real services wired as pkg/conduit/runtime.go createServices does, over faultdb(in-memory) with fake plugin and lifecycle boundaries). "
@@ -39,15 +39,15 @@ checks.update({
 PIPE2 = PIPE_NOTE
 checks.update({
  "C07": dict(cat="exploration", ref="4/C07", tech="runtime monitoring: DLQ record/ordering/content oracle + reference nack window written from the property wording + cross-engine differential run of the same scripts + Go race detector",
-   text="Every DLQ record observed is judged (at most once per run after a confirmed write, source order, carries the original record, a scripted error of THAT record and the component that raised it), every failed DLQ write (never followed by an unjustified ack), per source session the tolerate-vs-stop decision against a reference window; single-source scenarios are re-run on the other engine and the dead-lettered sets must agree when both runs were uninterrupted.", note=PIPE_NOTE + " Engine-induced nacks (teardown, fan-out sibling) are observations; exact window decisions are only judged where the outcome sequence the window saw is the scripted one."),
+   text="Every DLQ record observed is judged (at most once per run after a confirmed write, source order, carries the original record, a scripted error of THAT record and the component that raised it), every failed DLQ write (never followed by an unjustified ack), per source session the tolerate-vs-stop decision against a reference window, a DLQ write confirmed only in part (the unconfirmed rest is not acknowledged, nor stored as handled); single-source scenarios are re-run on the other engine and the dead-lettered sets must agree when both runs were uninterrupted.", note=PIPE_NOTE + " Engine-induced nacks (teardown, fan-out sibling) are observations; exact window decisions are only judged where the outcome sequence the window saw is the scripted one."),
  "C08": dict(cat="exploration", ref="4/C08", tech="runtime monitoring: per-record outcome comparison against a reference model of processor result semantics; small result-kind vectors enumerated + Go race detector",
    text="Every acknowledged source record's observed outcome (pieces delivered per destination / nothing written / the original dead-lettered once) must equal the reference outcome derived from the processor and destination scripts; all 780 result-kind vectors of batches <=4 are enumerated in thorough on both engines, larger chained shapes are sampled.", note=PIPE_NOTE),
  "C09": dict(cat="exploration", ref="4/C09", tech="runtime monitoring: hostile plugin reply injection with child-process crash attribution, wedge watchdog, ack-justification and conditional-alignment oracles + Go race detector",
    text="One hostile reply per scenario (11 processor reply shapes with/without condition, 6 destination ack shapes, 2 source record shapes, errors and panics from 5 unary plugin calls of source/destination/DLQ) in both engines; the worker process must survive (reproduced death = violation), the run must settle (watchdog twice = wedge), every source ack must stay justified, conditional processors must stay aligned and pass-through records in place.", note=PIPE_NOTE + " A plugin that never answers or panics in its own Run goroutine is outside the premise."),
  "C10": dict(cat="exploration", ref="4/C10", tech="runtime monitoring: cause-injection with status-history / restart / back-off oracle over store snapshots and monotonic event stamps + Go race detector",
-   text="One failure cause per scenario (6 fatal, 2 transient, 1 undetermined by the wording, 3 stop kinds) with retry limits 0-3/infinite and back-off 2-60 ms; judged from the stored status history and plugin Open events: fatal => Degraded with cause and no automatic restart, transient => restart from the stored position no sooner than MinDelay and at most MaxRetries times, accepted stop => no new run, matching stopped status.", note=PIPE_NOTE + " Only the lower back-off bound is a verdict (lateness is load)."),
+   text="One failure cause per scenario (17 causes: fatal ones incl. an unabsorbed processor error on a branch and a fatal error during shutdown, transient ones incl. failures spaced across the retry window, 1 undetermined by the wording, stop kinds incl. a user stop or StopAll whose drain fails) with retry limits 0-3/infinite and back-off 2-60 ms; judged from the stored status history and plugin Open events: fatal => Degraded with cause and no automatic restart, transient => restart from the stored position no sooner than MinDelay and at most MaxRetries times, accepted stop => no new run, matching stopped status.", note=PIPE_NOTE + " Only the lower back-off bound is a verdict (lateness is load)."),
  "C12": dict(cat="exploration", ref="4/C12", tech="runtime monitoring: force-stop injection at six classes of instant (incl. plugins withholding acks), termination watchdog, status/restart/resume-position oracle + Go race detector",
-   text="Force stop at start-up, mid-flow, with a destination or the DLQ withholding acks, right after a graceful stop, idle; then WaitPipeline and a user Start: the run terminates, status Degraded with cause, never Recovering/Running again before the user start, every ack in the history justified, Start succeeds and reopens each source at the stored position with nothing unhandled behind it.", note=PIPE_NOTE),
+   text="Force stop at start-up, mid-flow, with a destination or the DLQ withholding acks, right after a graceful stop, during a graceful shutdown that a destination blocks, during the recovery back-off, idle; then WaitPipeline and a user Start: the run terminates, status Degraded with cause, never Recovering/Running again before the user start, every ack in the history justified, Start succeeds and reopens each source at the stored position with nothing unhandled behind it.", note=PIPE_NOTE),
  "C13": dict(cat="exploration", ref="4/C13", tech="runtime monitoring: generation-stamping fake processor + call-log oracle around live reconfigure requests fired at event-log positions + Go race detector",
    text="Default engine: 1-4 live reconfigure requests (mid-stream, idle, racing a stop; unopenable new processor, concurrent and cancelled requests); each record handed to the processor once per run, no configuration reappears after a switch, an unopenable configuration never processes a record and its request fails, an exclusive successful request is in effect for the following calls, no call outside Open..Teardown, C01/C04/C05 oracles hold, guarded Update still refuses.", note=PIPE_NOTE + " arch-v2 has no in-place reconfigure path."),
  "C19": dict(cat="fault_enumeration", ref="4/C19", tech="runtime monitoring: file-tree snapshot oracle + verifier call log over real Install/ExtractBinary/VerifyIndex; strace per-(thread, syscall) SIGKILL injection on a re-executed harness child; porcupine register model for the index high-water mark",
@@ -56,12 +56,12 @@ checks.update({
 
 checks.update({
  "C11": dict(cat="exploration", ref="4/C11", tech="runtime monitoring: plugin-session interval / call-return / stored-status oracle over control-call histories with slow store acknowledgements of status writes; porcupine linearizability check of healthy control histories against a 3-state lifecycle register + Go race detector",
-   text="One sequential client per pipeline issues 5-14 control calls (Start, Stop, Stop+Wait, StopAndWait, force stop, overlapping background waits) in healthy, failure-interleaved and gated-status histories (every status write acknowledged 2-22 ms late; Stop, Start as soon as the stopped status is visible, StopAndWait on the new run). Judged: plugin sessions of one connector never overlap; a stop on a Running pipeline with a live run is neither refused nor misses that run; StopAndWait/WaitPipeline return only after the run that was live at the call is torn down and report its result; Start after an ended run is not refused as 'already running'; final status agrees with whether a run is live; healthy call results are linearizable (porcupine); wedge = watchdog twice; a reproduced process death is a violation.", note=PIPE_NOTE + " Calls are issued one at a time per pipeline as the property's quantifier says."),
+   text="One sequential client per pipeline issues 5-14 control calls (Start, Stop, Stop+Wait, StopAndWait, force stop, overlapping background waits) in healthy, failure-interleaved and gated-status histories, histories with a teardown error, a start whose build fails (every status write acknowledged 2-22 ms late; Stop, Start as soon as the stopped status is visible, StopAndWait on the new run). Judged: plugin sessions of one connector never overlap; every processor opened by a failed start is torn down; a stop on a Running pipeline with a live run is neither refused nor misses that run; StopAndWait/WaitPipeline return only after the run that was live at the call is torn down and report its result; Start after an ended run is not refused as 'already running'; final status agrees with whether a run is live; healthy call results are linearizable (porcupine); wedge = watchdog twice; a reproduced process death is a violation.", note=PIPE_NOTE + " Calls are issued one at a time per pipeline as the property's quantifier says."),
 })
 
 checks.update({
  "C16": dict(cat="exploration", ref="4/C16", tech="runtime monitoring: plan/apply history monitor over the real provisioning + lifecycle services under record flow (stale, concurrent, unauthorised, store-fault and restart-failure variants), drain-before-write and resume-position oracles over the recorded event log and store snapshots + Go race detector",
-   text="One configuration change applied with ApplyPlanLive under record flow in 8 variants; judged: stale/concurrent plans never both succeed, no touch of a running pipeline without authorisation, in restart mode the configuration is written only after the old run's plugin sessions are torn down and positions are durable, every source resumes at the stored position with nothing unhandled behind it, failed/refused applies leave a fully-old-or-fully-new configuration that a restarted server would load identically, every ack in the history justified.", note=PIPE_NOTE + " The HTTP handler's handling of the operator flag is not exercised (service level only)."),
+   text="One configuration change applied with ApplyPlanLive under record flow in 9 variants (incl. two processors of which the second fails to come up); judged: stale/concurrent plans never both succeed, no touch of a running pipeline without authorisation, in restart mode the configuration is written only after the old run's plugin sessions are torn down and positions are durable, the configuration generation a live plugin session runs with equals the stored one, every source resumes at the stored position with nothing unhandled behind it, failed/refused applies leave a fully-old-or-fully-new configuration that a restarted server would load identically, every ack in the history justified.", note=PIPE_NOTE + " The HTTP handler's handling of the operator flag is not exercised (service level only)."),
 })
 ALL = ["C%02d" % i for i in range(1, 21)]
 na_reason = "check under construction in this round (see DESIGN.md section 4 for the planned monitor); not claimed until it runs silent on the unchanged tree and catches seeded mutants"
